@@ -44,9 +44,12 @@ package ed25519
 // assumed definition of vrf_accept / vrf_decodable.
 //@ func ECVRFVerify
 //@   property C16
+//@   # verification computes on local buffers only; the frame is assumed (curve arithmetic is outside the subset)
+//@   option frame=assumed
 //@   ensures [accept!assumed] result0 == @vrf_accept(old(bytes(pk)), old(bytes(pi)), old(bytes(m)))
 //@   ensures [err!assumed]    (result1 == nil) == @vrf_decodable(old(bytes(pi)))
 //@   ensures [rejecterr]      result1 != nil ==> !result0
+//@   modifies nothing
 
 // SHA-512 based hashing to the curve / of four points: pure functions of their arguments, outside the subset
 // (hash.Hash state, local array slicing); they cannot panic on any input (fixed-size array copies only).
